@@ -174,7 +174,7 @@ type gen struct {
 	hist func(string)
 }
 
-var plainSyms = []string{"a", "b", "foo", "bar-baz", "x1", "*star*", "list", "quote", "car", "nil-ish", "+plus+"}
+var plainSyms = []string{"a", "b", "foo", "bar-baz", "x1", "*star*", "list", "quote", "car", "nil-ish", "+plus+", "fixnum", "vector", "symbol"}
 var oddSyms = []string{"Abc", "a b", "a(b", "1x", "12", "a;b", "", "a\"b", "a'b", "a|b", "#a", "a.b", ".", "a,b", "1e5", "-", "+1"}
 var keySyms = []string{":k", ":key-word", ":a1"}
 var strPool = []string{"", "abc", "two words", "q\"uote", "back\\slash", "line\nbreak", "tab\there", "(paren", ";semi", "'", "a  b", "λ", "ends with space ",
@@ -207,7 +207,12 @@ func (g *gen) atom() slip.Object {
 		return (*slip.Bignum)(b)
 	case x < 33:
 		g.hist("atom:ratio")
-		return slip.NewRatio(int64(g.r.Intn(40))-20, int64(g.r.Intn(9))+2)
+		den := int64(g.r.Intn(9)) + 2
+		num := int64(g.r.Intn(40)) - 20
+		if num%den == 0 {
+			num++ // a *Ratio holding an integer can only be built through the Go API
+		}
+		return slip.NewRatio(num, den)
 	case x < 40:
 		g.hist("atom:double")
 		return slip.DoubleFloat(common.Pick(g.r, dblPool))
